@@ -72,6 +72,12 @@ func (w *imager) walk(v reflect.Value, depth int) {
 		w.mix(core.HashString(v.Elem().Type().String()))
 		w.walk(v.Elem(), depth+1)
 	case reflect.Struct:
+		if pk := v.Type().PkgPath(); pk == "sync" || pk == "sync/atomic" {
+			// synchronisation objects (a mutex serialising readers, an atomic counter) are
+			// not tree data: a correctly locked implementation must not be flagged for
+			// taking its own lock. What they protect is still hashed.
+			return
+		}
 		for i := 0; i < v.NumField(); i++ {
 			w.walk(v.Field(i), depth+1)
 		}
